@@ -1406,6 +1406,11 @@ int xmpp_conn_restore_sm_state(xmpp_conn_t *conn,
     ret = sm_load_string(&sm, &conn->sm_state->id, &id_len);
     if (ret)
         goto err_reload;
+    if (strlen(conn->sm_state->id) != id_len) {
+        strophe_error(conn->ctx, "conn", "Invalid SM id in sm_state data");
+        ret = XMPP_EINVOP;
+        goto err_reload;
+    }
 
     uint32_t len, i;
     ret = sm_load_u32(&sm, 0x9a, &len);
